@@ -520,9 +520,12 @@ def check_case(case, obs=None):
         have = b["oid"] in m_by_oid
         if want == "keep" and not have:
             if b["kind"] in UNDOCUMENTED_DROPS:
-                return "undocumented_drop", ("%s of input %d is missing from the merged part (the documentation lists only "
-                                             "Barline, Page, System, Clef, Measure, TimeSignature, KeySignature as taken from the first part)"
-                                             % (b["kind"][1:], pos_of[b["part"]])), dict(obs, detail={"kind": b["kind"], "part_pos": pos_of[b["part"]]})
+                # reported separately (C15-K2); the other clauses are still evaluated on this case
+                obs.setdefault("soft", []).append(("undocumented_drop", (
+                    "%s of input %d is missing from the merged part (the documentation lists only Barline, Page, System, Clef, "
+                    "Measure, TimeSignature, KeySignature as taken from the first part)" % (b["kind"][1:], pos_of[b["part"]])),
+                    {"kind": b["kind"], "part_pos": pos_of[b["part"]]}))
+                continue
             return "element_missing", "%s (element %d) of input %d is missing from the merged part" % (b["kind"][1:], b["oid"], pos_of[b["part"]]), obs
         if want == "drop" and have:
             return "structural_not_first", "%s of input %d is in the merged part (structural elements come from the first part only)" % (
@@ -709,13 +712,18 @@ def drop_elems(spec, keep):
     return dict(spec, elems=out)
 
 
+def failure_classes(case):
+    f, m, o = check_case(case)
+    return ([f] if f else []) + [x[0] for x in (o or {}).get("soft", [])]
+
+
 def shrink_case(case, fclass):
     """ddmin over the elements of each part, keeping the failure class."""
     case = json.loads(json.dumps(case))
 
     def still(c):
         try:
-            return check_case(c)[0] == fclass
+            return fclass in failure_classes(c)
         except Exception:
             return False
     for pi in range(len(case["parts"])):
@@ -845,14 +853,20 @@ def check_loader(case, workdir, k):
 # ----------------------------------------------------------------------------
 
 
-def report(ctx, case, fclass, msg, obs):
+def report(ctx, case, fclass, msg, obs, soft_detail=None):
     small = shrink_case(case, fclass)
     f2, m2, o2 = check_case(small)
+    detail = (o2 or {}).get("detail")
     if f2 != fclass:
-        small, m2, o2 = case, msg, obs
+        hit = [x for x in (o2 or {}).get("soft", []) if x[0] == fclass]
+        if hit:
+            m2, detail = hit[0][1], hit[0][2]
+        else:
+            small, m2 = case, msg
+            detail = (obs or {}).get("detail") if not soft_detail else soft_detail
     replay_obj = {"kind": "merge", "case": small, "fclass": fclass, "message": m2 or msg}
-    if isinstance(o2, dict) and o2.get("detail"):
-        replay_obj["detail"] = o2["detail"]
+    if detail:
+        replay_obj["detail"] = detail
     ctx.violation("merge_parts(reassign=%r) on %d parts (divisions %r, %s): %s" % (
         small["mode"], len(small["parts"]), [p["divs"] for p in small["parts"]], small["container"]["type"], m2 or msg), replay_obj)
 
@@ -906,6 +920,12 @@ def run(ctx):
         for f in sorted(features(case)):
             ctx.count("feature:" + f)
         ctx.nontrivial(case)
+        for sf, sm, sd in (obs or {}).get("soft", [])[:1]:
+            ctx.count("oracle:" + sf)
+            key = (sf, case["mode"])
+            seen_fail[key] = seen_fail.get(key, 0) + 1
+            if seen_fail[key] <= 1:
+                report(ctx, case, sf, sm, obs, soft_detail=sd)
         if fclass:
             ctx.count("oracle:" + fclass)
             key = (fclass, case["mode"])
